@@ -212,41 +212,46 @@ def goSegDeriv {T D : Type} [Codec T] [HasDerivative T D] [Nums D FX] (a : Args)
   | some [s] => verdict a (Out.ofSegs [(HasDerivative.derivative s : Segment FX D)])
   | _ => "bad args"
 
-def goPwIntegral {T I : Type} [Codec T] [HasIntegral T (Knot FX) I] [Evaluate I FX] [Translate I FX] [Nums I FX]
+def goPwIntegral {T I : Type} [Codec T] [HasIntegral T (Knot FX) I] [Evaluate I FX] [Translate I FX] [Nums I FX] [Nums T FX]
     (a : Args) : String :=
   match (arg a "pw").bind (segs? (T := T)), (arg a "k").bind fxList? |>.bind (Codec.dec (T := Knot FX)) with
   | some segs, some k =>
     let r : Piecewise FX I := Hand.pwIntegral ⟨segs⟩ k
-    verdict a (Out.ofPw r)
+    verdict a (Out.ofPw r) (Mon.pwIntegral "pwintegral" (arg a "T") (segs.map fun s => (s.end, Nums.nums s.poly)) ((arg a "k").bind fxList? |>.getD []))
   | _, _ => "bad args"
 
-def goPwIndef {T I : Type} [Codec T] [HasIntegral T (Knot FX) I] [Evaluate I FX] [Translate I FX] [Nums I FX]
+def goPwIndef {T I : Type} [Codec T] [HasIntegral T (Knot FX) I] [Evaluate I FX] [Translate I FX] [Nums I FX] [Nums T FX]
     (a : Args) : String :=
   match (arg a "pw").bind (segs? (T := T)) with
   | some segs =>
     let r : Piecewise FX I := Hand.pwIndefinite ⟨segs⟩
-    verdict a (Out.ofPw r)
+    verdict a (Out.ofPw r) (Mon.pwIntegral "pwindef" (arg a "T") (segs.map fun s => (s.end, Nums.nums s.poly)) [])
   | _ => "bad args"
 
 /-- `Segment::integral_iter` / `integral_iter_ref` (same model) -/
-def goIntegralIter {T I : Type} [Codec T] [HasIntegral T (Knot FX) I] [Evaluate I FX] [Translate I FX] [Nums I FX]
+def goIntegralIter {T I : Type} [Codec T] [HasIntegral T (Knot FX) I] [Evaluate I FX] [Translate I FX] [Nums I FX] [Nums T FX]
     (a : Args) : String :=
   match (arg a "pw").bind (segs? (T := T)), (arg a "k").bind fxList? |>.bind (Codec.dec (T := Knot FX)) with
   | some segs, some k =>
     let r : List (Segment FX I) := Hand.integralIter segs k
-    verdict a (Out.ofSegs r)
+    verdict a (Out.ofSegs r) (fun impl => match (arg a "byref") with
+      | some br => if br != (arg a "impl").getD "" then some "integral_iter and integral_iter_ref produce different pieces"
+                   else Mon.pwIntegral "integraliter" (arg a "T") (segs.map fun s => (s.end, Nums.nums s.poly)) ((arg a "k").bind fxList? |>.getD []) impl
+      | none => none)
   | _, _ => "bad args"
 
-def goSegIntegral {T I : Type} [Codec T] [HasIntegral T (Knot FX) I] [Evaluate I FX] [Translate I FX] [Nums I FX]
+def goSegIntegral {T I : Type} [Codec T] [HasIntegral T (Knot FX) I] [Evaluate I FX] [Translate I FX] [Nums I FX] [Nums T FX]
     (a : Args) : String :=
   match (arg a "pw").bind (segs? (T := T)), (arg a "k").bind fxList? |>.bind (Codec.dec (T := Knot FX)) with
   | some [s], some k => verdict a (Out.ofSegs [(HasIntegral.integral s k : Segment FX I)])
+      (Mon.pwIntegral "segintegral" (arg a "T") [(s.end, Nums.nums s.poly)] ((arg a "k").bind fxList? |>.getD []))
   | _, _ => "bad args"
 
-def goSegIndef {T I : Type} [Codec T] [HasIntegral T (Knot FX) I] [Evaluate I FX] [Translate I FX] [Nums I FX]
+def goSegIndef {T I : Type} [Codec T] [HasIntegral T (Knot FX) I] [Evaluate I FX] [Translate I FX] [Nums I FX] [Nums T FX]
     (a : Args) : String :=
   match (arg a "pw").bind (segs? (T := T)) with
   | some [s] => verdict a (Out.ofSegs [(HasIntegral.indefinite s : Segment FX I)])
+      (Mon.pwIntegral "segindef" (arg a "T") [(s.end, Nums.nums s.poly)] [])
   | _ => "bad args"
 
 def goPwMul {T : Type} [Codec T] [PMul T FX T] [Nums T FX] (a : Args) : String :=
